@@ -74,6 +74,9 @@ func NewReport(property string) *Report {
 // Rule sets the description of how cases are generated and what counts as distinct.
 func (p *Report) Rule(s string) { p.mu.Lock(); p.r.Rule = s; p.mu.Unlock() }
 
+// RuleAdd appends to the rule description (scenarios added later than the original text).
+func (p *Report) RuleAdd(s string) { p.mu.Lock(); p.r.Rule += " " + s; p.mu.Unlock() }
+
 // Exhaustive marks the run as having enumerated a finite space completely.
 func (p *Report) Exhaustive(b bool) { p.mu.Lock(); p.r.Exhaustive = b; p.mu.Unlock() }
 
